@@ -28,26 +28,28 @@ def cases(tier, seed):
     flags = list(itertools.product([False, True], repeat=5))          # fill, join, balanced, obids, obstarts
     nd = 520 if tier == "quick" else 9000
     for h in range(nd):
-        table = tables[h % len(tables)]
+        F_h = gen.feat(101, h)          # independent feature choices per case (gen.feat)
+        table = tables[F_h("len_tables@30", len(tables))]
         n = len(table)
-        mode = "symm" if h % 3 else "square"
-        px = gen.random_store(rng, n, mode, maxval=5) if h % 12 else []
-        fill, join, balanced, obids, obstarts = flags[h % len(flags)]
-        rk = h % 4                                                     # 0: whole, 1: one region, 2-3: two regions
+        mode = "symm" if F_h("m3@32", 3) else "square"
+        px = gen.random_store(rng, n, mode, maxval=5) if F_h("m12@33", 12) else []
+        fill, join, balanced, obids, obstarts = flags[F_h("len_flags@34", len(flags))]
+        rk = F_h("m4@35", 4)                                                     # 0: whole, 1: one region, 2-3: two regions
         o = {"hasr": rk >= 1, "r": rand_region(rng, table), "hasr2": rk >= 2, "r2": rand_region(rng, table),
              "fill": fill, "join": join, "balanced": balanced, "obids": obids, "obstarts": obstarts}
-        yield "tx.dump", {"table": table, "mode": mode, "px": px, "o": o, "header": h % 5 == 0,
+        yield "tx.dump", {"table": table, "mode": mode, "px": px, "o": o, "header": F_h("m5@38", 5) == 0,
                           "wexp": [rng.choice([0, 1, 2, -1]) for _ in range(n)] if balanced else [],
-                          "chunk": rng.choice([1, 2, 3, 10 ** 6]), **({"at": ["/resolutions/10", "/a/b"][h % 2]} if h % 5 == 3 else {}),
-                          "prior": h % 6 == 1}
+                          "chunk": rng.choice([1, 2, 3, 10 ** 6]), **({"at": ["/resolutions/10", "/a/b"][F_h("m2@40", 2)]} if F_h("m5@40", 5) == 3 else {}),
+                          "prior": F_h("m6@41", 6) == 1}
     # (2) field layouts at arbitrary, non-monotone column numbers
     nl = 220 if tier == "quick" else 4000
     for h in range(nl):
-        table = tables[h % len(tables)]
-        one_based = h % 2 == 0
-        tril = ["reflect", "none", "drop"][h % 3]
-        has_x = h % 3 == 1
-        if h % 4 != 3:
+        F_h = gen.feat(102, h)          # independent feature choices per case (gen.feat)
+        table = tables[F_h("len_tables@45", len(tables))]
+        one_based = F_h("m2@46", 2) == 0
+        tril = ["reflect", "none", "drop"][F_h("m3@47", 3)]
+        has_x = F_h("m3@48", 3) == 1
+        if F_h("m4@49", 4) != 3:
             ncols = rng.randint(5 if has_x else 4, 8)
             cols = rng.sample(range(ncols), 5 if has_x else 4)
             lay = dict(zip(["chrom1", "pos1", "chrom2", "pos2"] + (["x"] if has_x else []), cols))
@@ -73,12 +75,13 @@ def cases(tier, seed):
                                 "ncols": ncols, "xvals": xv, "has_extra": has_x, "want_extra": want, "chunk": rng.choice([2, 1000])}
     # (3) dump then load back
     for h in range(120 if tier == "quick" else 2000):
-        table = tables[h % len(tables)]
-        mode = "symm" if h % 2 else "square"
+        F_h = gen.feat(103, h)          # independent feature choices per case (gen.feat)
+        table = tables[F_h("len_tables@75", len(tables))]
+        mode = "symm" if F_h("m2@76", 2) else "square"
         yield "tx.roundtrip", {"table": table, "mode": mode, "px": gen.random_store(rng, len(table), mode, maxval=9),
-                               "fmt": "coo" if h % 4 < 2 else "bg2", "one_based": h % 3 == 0,
+                               "fmt": "coo" if F_h("m4@78", 4) < 2 else "bg2", "one_based": F_h("m3@78", 3) == 0,
                                "chunk": rng.choice([1, 3, 10 ** 6]), "chunk2": rng.choice([1, 2, 1000]),
-                               "max_merge": rng.choice([1, 2, 3, 200]), **({"at": "/resolutions/10"} if h % 5 == 2 else {})}
+                               "max_merge": rng.choice([1, 2, 3, 200]), **({"at": "/resolutions/10"} if F_h("m5@80", 5) == 2 else {})}
     # (4) resolution-spec spellings of `cooler zoomify -r`
     for drv, case in c09_cases("thorough" if tier == "thorough" else "quick", seed):
         if drv == "zm.resspec":
